@@ -290,6 +290,37 @@ def jobs_c08(tier, known):
     return js
 
 
+def jobs_c20(tier, known):
+    js = []
+    NM = 16
+    dl = 420 if tier == "quick" else 3000
+
+    def sj(kernel, threads, bound, qs, dl_):
+        base = ["--kernel", kernel, "--threads", str(threads), "--queries", ",".join(map(str, qs))]
+        return {"id": "C20-sched-%s-t%d-b%d-q%s" % (kernel, threads, bound, "_".join(map(str, qs))), "cfg": "sched", "bin": "thrmc_sched",
+                "args": base + ["--bound", str(bound), "--deadline", str(dl_)], "replay_args": [], "timeout": dl_ + 120}
+    for kernel in ("poly", "tet", "hex"):
+        # 2 threads x 1 micro-query each: all ordered pairs, <= 1 preemption
+        for a in range(NM):
+            for b in range(NM):
+                js.append(sj(kernel, 2, 1, (a, b), dl))
+        # <= 2 preemptions: quick on the diagonal + neighbours, thorough on all pairs
+        for a in range(NM):
+            for b in range(NM):
+                if tier == "thorough" or (b == a and kernel == "poly" and a % 2 == 0) or (b == a and kernel != "poly" and a in (5, 7)):
+                    js.append(sj(kernel, 2, 2, (a, b), dl))
+        # 3 threads, <= 1 preemption
+        for a in range(NM):
+            trip = [(a, (a + 3) % NM, (a + 7) % NM)] if tier == "quick" else [(a, b, (a + b + 1) % NM) for b in range(NM)]
+            for t in trip:
+                js.append(sj(kernel, 3, 1, t, dl))
+        # free-running pass under ThreadSanitizer: the large sweeping reader bodies on 2..16 real threads
+        for nt in (2, 4, 8, 16):
+            args = ["--kernel", kernel, "--threads", str(nt), "--reps", "10" if tier == "quick" else "60"]
+            js.append({"id": "C20-tsan-%s-t%d" % (kernel, nt), "cfg": "tsan", "bin": "thrmc_tsan", "args": args, "replay_args": args, "timeout": 1200})
+    return js
+
+
 E1_ASSUME = ["states are operation histories replayed on fresh objects; deduplicated on a key of all concrete fields",
              "size caps: <= 8 vertices, 16 edges, 12 faces, 4 cells for additions (seeds may be larger)",
              "no halfface is ever used by two live cells (excluded by the property); arguments are always valid handles"]
@@ -370,12 +401,21 @@ PROPS = {
                             "VectorT::apply is not among the named operations (it transforms an uninitialised temporary; observation in DESIGN.md)",
                             "halfface normals of the two sides are required to be opposite for planar, strictly convex faces"],
             "bounds": {"quick": "D=4 lattice reduced to {-2,0,2}; float/double D=3 special-value pairs strided", "thorough": "full lattices, all D=3 special-value pairs"}},
+    "C20": {"jobs": jobs_c20, "level": "model_checking", "engine": "thrmc",
+            "technique": "stateless model checking of the implementation under a serialising scheduler (iterative context bounding, scheduling points at every instrumented function entry/exit) + free-running ThreadSanitizer pass over the same reader bodies",
+            "assumptions": ["scheduling points are the entries and exits of all OpenVolumeMesh functions (-finstrument-functions at -O0 -fno-inline, std headers excluded); accesses between two function boundaries are covered by the ThreadSanitizer pass, not by preemption",
+                            "weak-memory effects are not modelled (irrelevant for data published before the threads start)",
+                            "states = schedules executed, transitions = scheduling points executed; every schedule is an execution of the real code",
+                            "property creation / destruction is excluded, as in the statement"],
+            "bounds": {"quick": "3 kernels: all 256 ordered pairs of 16 micro-queries with <= 1 preemption; 12 pairs with <= 2 preemptions; 16 triples of threads with <= 1 preemption; TSan: 12 sweeping reader bodies on 2/4/8/16 threads",
+                       "thorough": "all 256 pairs with <= 2 preemptions; 256 triples with <= 1; TSan with 60 repetitions"}},
     "C17": mc(jobs_c17, "every ordered pair (a<=b) of slots of each kind incl. deleted ones, in every state of: full alphabet depth 1 (small), reduced depth 1 (medium), seed only (large) x 4 modes; 7 partial incidence subsets on seed states",
               "states of depth 2 (small) / 1 (medium, large); partial incidence subsets after one more operation"),
 }
 
 NOT_YET = {}
 ENGINES = [
+    {"name": "thrmc", "path": "engines/thrmc", "serves_properties": ["C20"], "kind_free_text": "hand-written serialising scheduler over -finstrument-functions scheduling points (preemption-bounded exhaustive schedules) + ThreadSanitizer free-running pass"},
     {"name": "vecmc", "path": "engines/vecmc", "serves_properties": ["C19", "C08"], "kind_free_text": "exhaustive value lattices (VectorT, geometry) and the 2^30 handle-index loop"},
     {"name": "regmc", "path": "engines/regmc", "serves_properties": ["C14"], "kind_free_text": "explicit-state exploration of the property registry against a reference model, ASan lifetime oracle"},
     {"name": "ovmio", "path": "engines/ovmio", "serves_properties": ["C06", "C07", "C18"],
